@@ -435,14 +435,15 @@ RECURSIVE ApplyChanges(_, _, _)
 ApplyChanges(S, chs, pr) ==
     IF S.r # "run" \/ chs = <<>> THEN S ELSE ApplyChanges(ApplyChange(S, Head(chs), pr), Tail(chs), pr)
 
-\* "paths becoming directories" pre-check: a tracked file that is replaced by a directory must be unmodified
+\* "paths becoming directories" pre-check.  Every caller modelled here runs with allow_overwrite_modified
+\* (forced checkout, reset --hard): a locally modified file that becomes a directory is overwritten, so
+\* only an lstat failure other than "absent" ends the operation here.  (The unforced checkout refuses
+\* modified files before anything is touched: that is CO's separate alternative in Results.)
 BecomingDirsOk(F, chs) ==
     \A i \in 1..Len(chs), j \in 1..Len(chs) :
         (/\ chs[i].ty \in {"A", "M"} /\ Len(chs[i].p) > 1
          /\ chs[j].ty = "D" /\ Len(chs[j].p) < Len(chs[i].p) /\ IsPrefix(chs[j].p, chs[i].p))
-        => LET st == LStatA(F, chs[j].p) IN
-           /\ st # "ERR"
-           /\ st = "f" => FileMatches(F, chs[j].p, chs[j].old)
+        => LStatA(F, chs[j].p) # "ERR"
 
 UpdateWorkingTree(F, I, chs, pr) ==
     IF ~BecomingDirsOk(F, chs) THEN Err(St(F, I))
